@@ -120,6 +120,14 @@ func utcOf(v int64) time.Time { return gpsEpoch.Add(time.Duration(v)) }
 func fmtT(t time.Time) string { return t.UTC().Format("2006-01-02T15:04:05.000000000Z") }
 
 func libGPS(v int64) int64 { return int64(gps.Time(utcOf(v)).TimeSinceGPSEpoch()) }
+
+// the same instant in other representations of time.Time (another Location pointer, built from Unix seconds): the
+// conversion is a function of the instant, not of how the value was constructed
+var zoneIST = time.FixedZone("+05:30", 19800)
+
+func reprs(u time.Time) []time.Time {
+	return []time.Time{time.Unix(u.Unix(), int64(u.Nanosecond())), u.In(zoneIST), u.In(time.FixedZone("-11:00", -39600))}
+}
 func libUTC(g int64) time.Time {
 	return time.Time(gps.NewTimeFromTimeSinceGPSEpoch(time.Duration(g)))
 }
@@ -132,6 +140,12 @@ func instantViolation(v int64) string {
 	if want := v + k*sec; got != want {
 		return fmt.Sprintf("UTC %s: TimeSinceGPSEpoch()=%d ns, i.e. offset %d ns applied; %d leap seconds are complete at that instant, so the offset must be %d s and the result %d ns",
 			fmtT(u), got, got-v, k, k, want)
+	}
+	for _, w := range reprs(u) {
+		if g2 := int64(gps.Time(w).TimeSinceGPSEpoch()); g2 != got {
+			return fmt.Sprintf("UTC %s: TimeSinceGPSEpoch() gives %d ns for the value in UTC but %d ns for the same instant written as %s (location %s): the result must depend on the instant only",
+				fmtT(u), got, g2, w.Format(time.RFC3339Nano), w.Location())
+		}
 	}
 	if back := libUTC(got); !back.Equal(u) {
 		return fmt.Sprintf("UTC %s -> GPS %d ns -> UTC %s: the round trip must return the same instant", fmtT(u), got, fmtT(back))
